@@ -246,9 +246,12 @@ func genTraffic(run *hx.Run, add func(*Case)) {
 	addrs := []string{hx.Hex(peerEth.Bytes()), "", hx.Hex(nodeEth.Bytes()), hx.Hex(r.Bytes(7)), hx.Hex(r.Bytes(40))}
 	for _, h := range []string{"traffic.cheque", "traffic.initin", "traffic.initout"} {
 		for _, sc := range []string{"k", "u", "kc", "ut"} {
-			for _, j := range jsons {
+			for ji, j := range jsons {
+				if !run.Thorough() && (sc == "kc" || sc == "ut") && ji > 6 && r.Intn(3) != 0 {
+					continue
+				}
 				for ai, a := range addrs {
-					if ai > 0 && !(run.Thorough() || r.Intn(4) == 0) {
+					if ai > 0 && !(run.Thorough() || r.Intn(10) == 0) {
 						continue
 					}
 					b, _ := json.Marshal(&tmsg{Addr: a, JSON: j.js})
@@ -257,7 +260,7 @@ func genTraffic(run *hx.Run, add func(*Case)) {
 			}
 		}
 		vb, _ := proto.Marshal(&tpb.EmitCheque{Address: peerEth.Bytes(), SignedCheque: []byte(valid)})
-		for _, chunks := range rawStreams(r, vb, run.N(25, 400)) {
+		for _, chunks := range rawStreams(r, vb, run.N(10, 400)) {
 			add(&Case{H: h, Kind: "raw", Scen: "k", Raw: hexes(chunks...), Class: "raw-bytes"})
 		}
 	}
